@@ -87,3 +87,53 @@ Proof.
   unfold verify_reads, lottery_reads, proof2hash. rewrite E. split; [reflexivity|]. split; [reflexivity|].
   intros H32. rewrite firstn_app. rewrite (firstn_all2 junk) by lia. reflexivity.
 Qed.
+
+(* ---- which message a block is verified against ---- *)
+(* CalDeltaByTime(after, before) = int(after.Sub(before).Seconds()) / MAX_GROUP_BLOCK_TIME + 1 with Go's
+   truncation toward zero in both the float -> int conversion and the integer division; times in ns *)
+Definition max_group_block_time : Z := 2.
+Definition delta_of (after before : Z) : Z :=
+  (Z.quot (Z.quot (after - before) 1000000000) max_group_block_time + 1)%Z.
+
+Record header := {
+  h_prove : bytes;        (* ProveValue.Bytes() *)
+  h_cur : Z;              (* CurTime, ns *)
+  h_pre_time : Z;         (* PreTime, ns: NOT read by the VRF path *)
+  h_height : Z;
+  h_total_qn : Z;
+  h_random : bytes;       (* Random *)
+  h_castor : bytes;       (* Castor id: NOT read by the VRF path (the castor's MinerInfo is looked up by the caller) *)
+  h_other : bytes         (* everything else *)
+}.
+
+Section Block.
+Variable Hsh : bytes -> bytes.
+Variable V : bytes -> bytes -> bytes -> bool.      (* vrf.VRFVerify pk proof msg *)
+
+(* the message of a block: a function of the PARENT's Random and CurTime and the block's CurTime *)
+Definition block_msg (bh pre : header) : bytes :=
+  gen_vrf_msg Hsh (h_random pre) (delta_of (h_cur bh) (h_cur pre)).
+
+(* verifyBlockVRF(bh, preBH, castor, totalStake) *)
+Definition verify_block_vrf (p : params) (bh pre : header) (pk : bytes) (wm ts : Z) : bool :=
+  V pk (h_prove bh) (block_msg bh pre) &&
+  match validate_float p (h_prove bh) (h_height bh) wm ts with
+  | VR true (QN qn) => (h_total_qn bh =? qn + h_total_qn pre)%Z
+  | _ => false
+  end.
+
+Lemma verify_block_vrf_reads p bh bh' pre pre' pk wm ts :
+  h_prove bh = h_prove bh' -> h_cur bh = h_cur bh' -> h_height bh = h_height bh' ->
+  h_total_qn bh = h_total_qn bh' ->
+  h_random pre = h_random pre' -> h_cur pre = h_cur pre' -> h_total_qn pre = h_total_qn pre' ->
+  verify_block_vrf p bh pre pk wm ts = verify_block_vrf p bh' pre' pk wm ts.
+Proof.
+  intros E1 E2 E3 E4 E5 E6 E7. unfold verify_block_vrf, block_msg.
+  rewrite E1, E2, E3, E4, E5, E6, E7. reflexivity.
+Qed.
+
+Lemma verify_block_vrf_binds p bh pre pk wm ts :
+  verify_block_vrf p bh pre pk wm ts = true ->
+  V pk (h_prove bh) (gen_vrf_msg Hsh (h_random pre) (delta_of (h_cur bh) (h_cur pre))) = true.
+Proof. unfold verify_block_vrf, block_msg. intro H. apply andb_prop in H. tauto. Qed.
+End Block.
